@@ -81,7 +81,7 @@ def comment_scan(ctx, rule):
     LEG = rest[0] if rest else "?"
     ctx.check(len(P_NEW) == 21 and len(P_OLD) == 21, rule, fn, "prefix-len", "both prefixes are 21 bytes long")
     sl = [(bi, q.shape(b.expr_of_call(t), roles)) for bi, t in q.calls_to(b, "Index::index")]
-    ctx.check([s for _, s in sl] == ["String::as_bytes(line)[RangeFrom{start:21}]"], rule, fn, "slice:21", "the URL is what follows the 21 prefix bytes of that same line", detail=str(sl))
+    ctx.check([s for _, s in sl] in (["String::as_bytes(line)[RangeFrom{start:21}]"], ["line[RangeFrom{start:21}]"]), rule, fn, "slice:21", "the URL is what follows the 21 prefix bytes of that same line", detail=str(sl))
     A, B = "str::starts_with(line,%r)" % P_NEW, "str::starts_with(line,%r)" % P_OLD
     start = b.defs[line[0]][0][0]
     for a in (0, 1):
@@ -97,7 +97,8 @@ def comment_scan(ctx, rule):
                 ctx.check(bool(heads) and not esc, rule, fn, "no-skip:new=%d,old=%d" % (a, o),
                           "a line that starts with a prefix always reaches the URL slice (no further condition such as a minimum length skips it)", detail="escapes via bb%s" % esc)
     urls = [sh for l in sorted(b.var_names) for sh, _, _ in q.def_shapes(b, l, roles) if sh.startswith("ToOwned::to_owned(") or sh.startswith("str::trim(")]
-    ctx.check(len(urls) == 1 and q.wild("ToOwned::to_owned(str::trim(try(converts::from_utf8(String::as_bytes(*)[RangeFrom{start:21}]))))", urls[0]), rule, fn, "trim", "the URL is trimmed", detail=str(urls))
+    ctx.check(len(urls) == 1 and (q.wild("ToOwned::to_owned(str::trim(try(converts::from_utf8(String::as_bytes(*)[RangeFrom{start:21}]))))", urls[0])
+                                  or urls[0] == "ToOwned::to_owned(str::trim(line[RangeFrom{start:21}]))"), rule, fn, "trim", "the URL is trimmed", detail=str(urls))
     lits = [(bi, s["rv"]["variant"]) for bi, si, s, it in b.locations() if not it and s["k"] == "assign" and s["rv"]["k"] == "agg" and s["rv"].get("adt") == "detector::SourceMapRef"]
     ok = sorted(v for _, v in lits) == ["LegacyRef", "Ref"]
     ctx.check(ok, rule, fn, "variants", "a reference is reported as Ref or LegacyRef")
@@ -303,9 +304,18 @@ def hermes_state(ctx, rule):
     inner = loops[min((len(bl), h) for h, bl in loops.items() if inner_h in bl)[1]]
     outer = loops[min((len(bl), h) for h, bl in loops.items() if outer_h in bl)[1]]
     NEXT = "Iterator::next(var:Copied<Iter<i64>>)"
-    fc = expect_defs(ctx, rule, b, col, roles, {"0": "zero", "cast<u32>(Add(from<i64>(COL),try(%s)))" % NEXT: "acc"}, ["zero", "acc"], "column")
-    fn_ = expect_defs(ctx, rule, b, nm, roles, {"0": "zero", "cast<u32>(Add(Option::unwrap_or(%s,0),from<i64>(NAME)))" % NEXT: "acc", "cast<u32>(Add(from<i64>(NAME),Option::unwrap_or(%s,0)))" % NEXT: "acc"}, ["zero", "acc"], "name index")
-    fl = expect_defs(ctx, rule, b, ln, roles, {"1": "one", "cast<u32>(Add(Option::unwrap_or(%s,0),from<i64>(LINE)))" % NEXT: "acc", "cast<u32>(Add(from<i64>(LINE),Option::unwrap_or(%s,0)))" % NEXT: "acc"}, ["one", "acc"], "line")
+    NUMS = "^var:Vec<i64>"
+    V0, V1, V2 = "%s[0]" % NUMS, "Option::unwrap_or(slice::get(%s,1),0)" % NUMS, "Option::unwrap_or(slice::get(%s,2),0)" % NUMS
+    indexed = any(sh in ("cast<u32>(Add(%s,from<i64>(COL)))" % V0, "cast<u32>(Add(from<i64>(COL),%s))" % V0) for sh, _, _ in q.def_shapes(b, col, roles))
+    if indexed:
+        # the three values taken by position (first()? / get(1) / get(2)) instead of through an iterator over the segment
+        fc = expect_defs(ctx, rule, b, col, roles, {"0": "zero", "cast<u32>(Add(%s,from<i64>(COL)))" % V0: "acc", "cast<u32>(Add(from<i64>(COL),%s))" % V0: "acc"}, ["zero", "acc"], "column")
+        fn_ = expect_defs(ctx, rule, b, nm, roles, {"0": "zero", "cast<u32>(Add(%s,from<i64>(NAME)))" % V1: "acc", "cast<u32>(Add(from<i64>(NAME),%s))" % V1: "acc"}, ["zero", "acc"], "name index")
+        fl = expect_defs(ctx, rule, b, ln, roles, {"1": "one", "cast<u32>(Add(%s,from<i64>(LINE)))" % V2: "acc", "cast<u32>(Add(from<i64>(LINE),%s))" % V2: "acc"}, ["one", "acc"], "line")
+    else:
+        fc = expect_defs(ctx, rule, b, col, roles, {"0": "zero", "cast<u32>(Add(from<i64>(COL),try(%s)))" % NEXT: "acc"}, ["zero", "acc"], "column")
+        fn_ = expect_defs(ctx, rule, b, nm, roles, {"0": "zero", "cast<u32>(Add(Option::unwrap_or(%s,0),from<i64>(NAME)))" % NEXT: "acc", "cast<u32>(Add(from<i64>(NAME),Option::unwrap_or(%s,0)))" % NEXT: "acc"}, ["zero", "acc"], "name index")
+        fl = expect_defs(ctx, rule, b, ln, roles, {"1": "one", "cast<u32>(Add(Option::unwrap_or(%s,0),from<i64>(LINE)))" % NEXT: "acc", "cast<u32>(Add(from<i64>(LINE),Option::unwrap_or(%s,0)))" % NEXT: "acc"}, ["one", "acc"], "line")
     for site in fc.get("zero", []):
         ctx.check(site[0] in outer and site[0] not in inner, rule, fn, "column:reset-per-line", "the column restarts at 0 for every ';' piece, not per segment", ctx.site(b, *site))
     for lab, found in (("name index", fn_.get("zero", [])), ("line", fl.get("one", []))):
@@ -316,7 +326,7 @@ def hermes_state(ctx, rule):
     for lab, found in (("column", fc), ("name", fn_), ("line", fl)):
         for site in found.get("acc", []):
             order.append((len(b.dominators_of(site[0])), lab))
-    ctx.check([l for _, l in sorted(order)] == ["column", "name", "line"], rule, fn, "order", "the segment's values are consumed in the order column, name index, line (Metro's format)", detail=str(sorted(order)))
+    ctx.check(indexed or [l for _, l in sorted(order)] == ["column", "name", "line"], rule, fn, "order", "the segment's values are consumed in the order column, name index, line (Metro's format)", detail=str(sorted(order)))
     # every non-empty, parsable segment yields one offset
     pushes = [bi for bi, t in q.calls_to(b, "Vec::<T, A>::push") if q.shape(q.arg_expr(b, t, 1), roles).startswith("HermesScopeOffset{")]
     empt = [d for d in range(len(b.blocks)) if b.blocks[d]["term"]["k"] == "switch" and d in inner and q.shape(b.expr_of_operand(b.blocks[d]["term"]["discr"]), roles) == "str::is_empty(try(Iterator::next(SEGS)))"]
@@ -332,13 +342,15 @@ def hermes_state(ctx, rule):
         ctx.check(len(pcalls) == 1 and any(c.bb == empt[0] and c.truth() is False for c in q.path_conditions(b, pcalls[0])), rule, fn, "segment:empty-skipped",
                   "an empty segment is skipped, not parsed (parsing it would fail and disable the whole function map)")
     its = [sh for l in sorted(b.var_names) for sh, _, _ in q.def_shapes(b, l, roles) if sh == "slice::iter(^var:Vec<i64>)"]
-    ctx.check(len(its) == 1, rule, fn, "nums-iter", "the values are read in order from the parsed segment")
+    ctx.check(len(its) == 1 or indexed, rule, fn, "nums-iter", "the values are read in order from the parsed segment")
     parse = [q.shape(b.expr_of_call(t)) for bi, t in b.calls() if q.nice(t.get("callee")) == "Result::ok"]
     parse = [q.shape(b.expr_of_call(t), roles) for bi, t in b.calls() if q.nice(t.get("callee")) == "Result::ok"]
     ctx.check(parse == ["Result::ok(vlq::parse_vlq_segment_into(try(Iterator::next(SEGS)),^var:Vec<i64>))"], rule, fn, "parse-error->None",
               "a segment that fails to parse disables scope lookup for this source only (.ok()? inside the per-source closure)", detail=str(parse))
     lit = [q.shape(b.expr_of_rvalue(s["rv"]), roles) for bi, si, s, it in b.locations() if not it and s["k"] == "assign" and s["rv"]["k"] == "agg" and s["rv"].get("adt") == "hermes::HermesFunctionMap"]
     ENTRY = "try(Iterator::next(slice::iter(try(Option::as_ref(arg2)))))"
+    if any("try(Option::as_ref(arg2))[0]" in x for x in lit):
+        ENTRY = "try(Option::as_ref(arg2))[0]"  # `.first()?` instead of `.iter().next()?`
     pv = [q.root_local(q.arg_expr(b, t, 0)) for bi, t in q.calls_to(b, "Vec::<T, A>::push") if q.shape(q.arg_expr(b, t, 1), roles).startswith("HermesScopeOffset{")]
     lroles = dict(roles)
     if len(pv) == 1 and pv[0] is not None:
